@@ -54,6 +54,22 @@ theorem C20_num_float_exact (rs : List Restr) (j : Join) (y : XNum) (x : BVal)
   simp [asBase] at ha
   exact ha.symm
 
+/-- the accepted value is of the base type -/
+theorem C20_num_base_type (b : Base) (rs : List Restr) (j : Join) (v : PyVal) (x : BVal)
+    (h : validateNum b rs j v = .ok x) :
+    match b with
+    | .int => ∃ n, x = .i n
+    | .float => ∃ y, x = .f y := by
+  have ha := asBase_toPy ((validateNum_iff b rs j v x).mp h).1
+  cases b <;> cases x <;> simp only [BVal.toPy] at ha ⊢
+  · exact ⟨_, rfl⟩
+  · rename_i y
+    cases y <;> simp [asBase] at ha
+  · rename_i n
+    simp only [asBase] at ha
+    split at ha <;> simp at ha
+  · exact ⟨_, rfl⟩
+
 /-- booleans are never accepted -/
 theorem C20_num_bool_rejected (b : Base) (rs : List Restr) (j : Join) (t : Bool) (x : BVal) :
     validateNum b rs j (.bool t) ≠ .ok x := by
@@ -247,6 +263,13 @@ example : rangeDeser " range( 5 ,0, -2) ".toList = .ok ⟨5, 0, -2⟩ := by deci
 example : rangeDeser "range(1, 2, 0)".toList = .error .value := by decide +kernel
 example : rangeDeser "range(1.5)".toList = .error .value := by decide +kernel
 
+/-- consequently the serialised form determines the range -/
+theorem C20_range_ser_injective (r₁ r₂ : Range) (h₁ : r₁.step ≠ 0) (h₂ : r₂.step ≠ 0)
+    (h : rangeSer r₁ = rangeSer r₂) : r₁ = r₂ := by
+  have e₁ := C20_range_rt r₁ h₁
+  rw [h, C20_range_rt r₂ h₂] at e₁
+  exact (Except.ok.inj e₁).symm
+
 /-- the literals of `range_deserializer` / `range_serializer` are the ones the model was proved against -/
 theorem C20_range_tie :
     Jap.Gen.Registered.rangePatterns = [reRangeStop, reRangeStartStop, reRangeStartStopStep] ∧
@@ -275,6 +298,13 @@ example : tdDeser "2 days, 100:99:99.5".toList = .ok ⟨6, 20439, 500000⟩ := b
 example : tdDeser "1:2:3xyz".toList = .ok ⟨0, 3723, 0⟩ := by decide +kernel
 example : tdDeser "1 week, 0:00:00".toList = .error .value := by decide +kernel
 example : tdDeser "0:00:1.2.3".toList = .error .value := by decide +kernel
+
+/-- consequently `str` is injective on normalised timedeltas -/
+theorem C20_td_str_injective (t₁ t₂ : TD) (h₁ : t₁.Normalised) (h₂ : t₂.Normalised)
+    (h : tdStr t₁ = tdStr t₂) : t₁ = t₂ := by
+  have e₁ := C20_td_rt t₁ h₁
+  rw [h, C20_td_rt t₂ h₂] at e₁
+  exact (Except.ok.inj e₁).symm
 
 /-- the literals of `timedelta_deserializer` are the ones the model's matcher was proved against -/
 theorem C20_td_tie :
